@@ -168,12 +168,13 @@ def _prologue_template(facts):
     """String literal(s) of generate_prefix_stmts, for the JS parser."""
     from . import hir
 
-    for fn in facts["fns"]:
-        if fn.get("name") == "generate_prefix_stmts" and "body" in fn:
-            lits = [n["lit"]["v"] for n in hir.walk(fn["body"]) if n.get("k") == "Lit" and n["lit"]["t"] == "str"]
-            for s in lits:
-                if "__CSI_METHODS__" in s and len(s) > 20:
-                    return s
+    # generate_prefix_stmts itself, then (the template moved into a helper) any other function of the crate
+    fns = [fn for fn in facts["fns"] if "body" in fn and not fn.get("in_test") and not fn.get("gen")]
+    for fn in sorted(fns, key=lambda fn: fn.get("name") != "generate_prefix_stmts"):
+        lits = [n["lit"]["v"] for n in hir.walk(fn["body"]) if n.get("k") == "Lit" and n["lit"]["t"] == "str"]
+        for s in lits:
+            if "__CSI_METHODS__" in s and len(s) > 20:
+                return s
     return None
 
 
@@ -198,6 +199,8 @@ def _run_jsfacts(repo, facts, out_json):
 
 
 _cache = {}
+# bump when the derivation of the JS-side facts changes (cached files of older versions are ignored)
+JS_FACTS_VERSION = 2
 
 
 def get_facts(repo=REPO, direct_ref=None):
@@ -218,21 +221,30 @@ def get_facts(repo=REPO, direct_ref=None):
         return _cache[key]
     os.makedirs(os.path.join(BUILD, "facts"), exist_ok=True)
     path = os.path.join(BUILD, "facts", h + ".json")
-    jspath = os.path.join(BUILD, "facts", h + ".js.json")
+    jspath = os.path.join(BUILD, "facts", h + ".js%d.json" % JS_FACTS_VERSION)
     t0 = time.time()
     with open(os.path.join(BUILD, "facts.lock"), "w") as lock:
         fcntl.flock(lock, fcntl.LOCK_EX if direct_ref is None else LOCK_SH)
         fresh = False
-        if os.path.exists(path) and os.path.exists(jspath):
+        facts = js = None
+        if os.path.exists(path):
             try:
                 with open(path) as fh:
                     facts = json.load(fh)
-                with open(jspath) as fh:
-                    js = json.load(fh)
+                if os.path.exists(jspath):
+                    with open(jspath) as fh:
+                        js = json.load(fh)
             except Exception:
-                facts = None
-        else:
-            facts = None
+                facts = js = None
+        if facts is not None and js is None:
+            # the Rust facts are there, the JS side (or the way it is derived) is newer: redo only that
+            js = _run_jsfacts(repo, facts, jspath + ".tmp.%d" % os.getpid())
+            with open(jspath, "w") as fh:
+                json.dump(js, fh)
+            try:
+                os.remove(jspath + ".tmp.%d" % os.getpid())
+            except OSError:
+                pass
         if facts is None:
             tmp = path + ".tmp.%d" % os.getpid()
             if direct_ref is None:
